@@ -109,7 +109,8 @@ typename dis_interval<Number>::list_intervals_t dis_interval<Number>::normalize(
   for (unsigned int i = 0; i < l.size(); ++i) {
     ikos::interval<Number> intv = l[i];
 
-    if (prev == intv) {
+    // prev is top only while there is no previous interval
+    if (!prev.is_top() && prev == intv) {
       CRAB_LOG("disint", crab::outs() << "-- Normalize: duplicate"
                                       << "\n");
       continue;
